@@ -27,33 +27,33 @@ import (
 
 // SSH message numbers used by Peer.
 const (
-	MsgDisconnect     = 1
-	MsgIgnore         = 2
-	MsgUnimplemented  = 3
-	MsgDebug          = 4
-	MsgServiceRequest = 5
-	MsgServiceAccept  = 6
-	MsgExtInfo        = 7
-	MsgKexInit        = 20
-	MsgKexECDHInit    = 30 // also SSH_MSG_KEXDH_INIT
-	MsgKexECDHReply   = 31 // also SSH_MSG_KEXDH_REPLY
-	MsgUserAuthReq    = 50
-	MsgUserAuthFail   = 51
-	MsgUserAuthOK     = 52
-	MsgGlobalRequest  = 80
-	MsgRequestSuccess = 81
-	MsgRequestFailure = 82
-	MsgChannelOpen    = 90
-	MsgChannelOpenOK  = 91
+	MsgDisconnect      = 1
+	MsgIgnore          = 2
+	MsgUnimplemented   = 3
+	MsgDebug           = 4
+	MsgServiceRequest  = 5
+	MsgServiceAccept   = 6
+	MsgExtInfo         = 7
+	MsgKexInit         = 20
+	MsgKexECDHInit     = 30 // also SSH_MSG_KEXDH_INIT
+	MsgKexECDHReply    = 31 // also SSH_MSG_KEXDH_REPLY
+	MsgUserAuthReq     = 50
+	MsgUserAuthFail    = 51
+	MsgUserAuthOK      = 52
+	MsgGlobalRequest   = 80
+	MsgRequestSuccess  = 81
+	MsgRequestFailure  = 82
+	MsgChannelOpen     = 90
+	MsgChannelOpenOK   = 91
 	MsgChannelOpenFail = 92
-	MsgChannelWindow  = 93
-	MsgChannelData    = 94
-	MsgChannelExtData = 95
-	MsgChannelEOF     = 96
-	MsgChannelClose   = 97
-	MsgChannelRequest = 98
-	MsgChannelSuccess = 99
-	MsgChannelFailure = 100
+	MsgChannelWindow   = 93
+	MsgChannelData     = 94
+	MsgChannelExtData  = 95
+	MsgChannelEOF      = 96
+	MsgChannelClose    = 97
+	MsgChannelRequest  = 98
+	MsgChannelSuccess  = 99
+	MsgChannelFailure  = 100
 )
 
 const (
@@ -85,15 +85,15 @@ type PeerConfig struct {
 
 // KexInfo describes the outcome of one key exchange as Peer computed it.
 type KexInfo struct {
-	Kex, HostKeyAlgo         string
-	CipherC2S, CipherS2C     string
-	MACC2S, MACS2C           string
-	Hash                     crypto.Hash
-	K                        []byte // encoded (mpint) shared secret as hashed
-	H                        []byte
-	SessionID                []byte
-	Strict                   bool
-	PeerKexInit, OwnKexInit  []byte
+	Kex, HostKeyAlgo        string
+	CipherC2S, CipherS2C    string
+	MACC2S, MACS2C          string
+	Hash                    crypto.Hash
+	K                       []byte // encoded (mpint) shared secret as hashed
+	H                       []byte
+	SessionID               []byte
+	Strict                  bool
+	PeerKexInit, OwnKexInit []byte
 }
 
 // Peer is one end of an SSH connection.
